@@ -307,6 +307,31 @@ fn check_callbacks(
                 ));
             }
         }
+        // restored / strategy / update callbacks decide on the layer's content: they must find the
+        // directory exactly as the previous build (and the restore) left it
+        if let Some(found) = &l.dir {
+            if !model_before.top_is_symlink(layer) {
+                let want = model_before.snap.subtree(&model_before.ldir(layer));
+                // a migration may have rewritten the env files (same environment); compare the rest
+                let strip_env = |s: &Snap| Snap {
+                    nodes: s
+                        .nodes
+                        .iter()
+                        .filter(|(k, _)| !(k.starts_with(b"env/") || k.starts_with(b"env.build") || k.starts_with(b"env.launch") || k.as_slice() == b"env"))
+                        .map(|(k, v)| (k.clone(), v.clone()))
+                        .collect(),
+                };
+                if strip_env(found) != strip_env(&want) {
+                    let lines = snap::diff(&strip_env(&want), &strip_env(found), &|_, _, _| None, &[]);
+                    return Some((
+                        "I-callbacks".into(),
+                        std::iter::once(format!("callback {:?} did not find the layer directory as the previous build left it:", l.kind))
+                            .chain(lines.into_iter().take(6))
+                            .collect(),
+                    ));
+                }
+            }
+        }
         if l.kind == CbKind::Create {
             if let Some(listing) = &l.listing {
                 if !listing.is_empty() {
